@@ -126,6 +126,12 @@ impl RegionMetadata {
             return Err(Error::RegionMetadataUnwritten);
         }
         // Schedule writeback, then mark clean. Caller ensures durability via sync_data().
+        #[cfg(anydb_verif)]
+        crate::verif_tap::emit(crate::verif_tap::Event::FlushAsync {
+            file: 1,
+            offset: index * SIZE_OF_REGION_METADATA,
+            len: SIZE_OF_REGION_METADATA,
+        });
         regions
             .mmap()
             .flush_async_range(index * SIZE_OF_REGION_METADATA, SIZE_OF_REGION_METADATA)?;
